@@ -21,8 +21,8 @@ NOTE_COMMON = ("trusted: JAX tracing (jaxpr = what jit compiles), our jaxpr inte
 CLAIMED = {
     "C01": ("4/C01", "all factor kinds x {multiply,*,hadamard,product} x update_full x cached covariance; D<=2 (3 thorough), R1,R2<=3"),
     "C02": ("4/C02", "mass of measures vs the Gaussian mass axiom; every density-returning API normalised, decided from the returned Lambda/nu/ln_beta; D<=2, Dx+Dy<=3 (2,2 semi-symbolic in thorough)"),
-    "C03": ("4/C03", "all 12 integration keys, shared / per-component / mixed / default coefficients, D=2, K,L,M permutations of (1,2,3), R<=2 (D=3 thorough); Stein-recursion oracle"),
-    "C04": ("4/C04", "inductive step: one public operation from an arbitrary consistent pre-state (caches absent / supplied / queried); warm-vs-cold equality; D=2, R<=2, Dx+Dy<=3"),
+    "C03": ("4/C03 + 11", "all 12 integration keys, shared / per-component / mixed / default coefficients, D=2 fully symbolic with K,L,M permutations of (1,2,3), R<=2 (D=3 thorough); D=4..6 with K,L,M up to 5 with the covariance bound to generic rationals (mean and coefficients symbolic); Stein-recursion oracle"),
+    "C04": ("4/C04 + 11.3", "inductive step: one public operation from an arbitrary consistent pre-state (caches absent / supplied / queried); warm-vs-cold equality; constructor / prior variants of every conditional kind; HISTORIES: 18 (120 thorough) fixed random operation sequences of length 3-5 (3-8) executed with and without read-only queries, invariant after every step and final function against the tracked definition; D=2, R<=2, Dx+Dy<=3"),
     "C05": ("4/C05", "get_marginal for ordered index lists D<=3 (4 semi), linear sums Dsum<=2"),
     "C06": ("4/C06", "condition_on / condition_on_explicit for every proper ordered subset, D<=3 (4 semi)"),
     "C07": ("4/C07", "all conditional kinds, (Dx,Dy) in {(1,1),(2,1),(1,2)} fully symbolic, (2,2) semi; (R_cond,R_x) in {(1,1),(1,2),(2,1)}"),
@@ -30,13 +30,13 @@ CLAIMED = {
     "C09": ("4/C09", "Bayes identity as C07; round trip at Dx+Dy<=3 with the prior covariance concrete for Dx+Dy=3"),
     "C10": ("4/C10", "all conditional kinds, Dx != Dy included, R=1 with N<=2 (3 thorough) observations and R=N; well-formedness through product/slice/multiply/log_integral"),
     "C13": ("4/C13", "entropy/KL/conditional entropy/MI equalities against Stein-moment expectations; KL>=0 and MI>=0 solver-decided only for D=Dx=Dy=1"),
-    "C11": ("4/C11", "regression N=2 (3 thorough): sequential in every order, joint+condition_on, prior*prod set_y, evidence; Kalman T=2 (3 thorough) vs dense joint built by the spec; Dw,Dz<=2 with matrices partly bound to generic rationals"),
-    "C12": ("4/C12", "op(obj).slice(idx') = op(obj.slice(idx)) for enumerated index arrays (repeats, negatives, permutations) over R in {2,3}; all classes and operations listed in evidence; index arrays are enumerated, values solved"),
+    "C11": ("4/C11 + 11.4", "regression N=2 fully symbolic, N=4 with all 24 orders (matrices concrete), N=3 thorough: sequential in every order, joint+condition_on, prior*prod set_y, evidence; prior built five ways; Kalman T=2 fully symbolic and T=6/8 (12 thorough) with the model matrices bound to generic rationals vs the dense joint built by the spec"),
+    "C12": ("4/C12", "op(obj).slice(idx') = op(obj.slice(idx)) for enumerated index arrays (repeats, negatives, permutations) over R in {2,3} (D=2) and R in {5,6} (D=1); all classes and operations listed in evidence (products on cold / cache-warm measures and densities, log-factor integrals, transformations with the batch on either side, approximate conditionals, truncated measures incl. limits infinite on different sides); index arrays are enumerated, values solved"),
     "C14": ("4/C14", "log-factor for all factor kinds; linear conditionals with arbitrary Gaussian q; LRBF/LSEM with tilted-Gaussian closed-form oracle, Dx=1, Dk<=2 (Dx=2 thorough)"),
     "C15": ("4/C15", "relational: specialised vs general class built from the same parameters, all operations the specialised class supports; D=2, R<=2, Dx+Dy<=3 (identity D<=2)"),
     "C16": ("4/C16", "(a) moments of LRBF/LSEM/exp/cosh-1 against tilted-Gaussian closed forms + structure of condition_on_x; (b) assembly for all six classes with stubbed symbolic moments; step/relu link moments for Dx=1 via Phi atoms"),
     "C17": ("4/C17", "coherence clause (mean, covariance, precision = inverse, log-determinant of condition_on_x for all four links, link value arbitrary); step-link EQUALITY of the bound for Dx=1; exactness at zero input weights and the first-order tightness condition (d gap/d eps = 0 at eps = 0, jvp of the real code) for exp and cosh-1; lb <= truth for exp, cosh-1 (Dx<=2) and the rectified-linear link (Dx=1) through a witness minorant (returned value = closed-form expectation of an explicit pointwise minorant, for arbitrary variational parameters; failed equalities are replayed against quadrature of the true expectation); declined: the inequality for several noise units / wide A / rectified-linear Dx>=2, tightness beyond first order"),
-    "C18": ("4/C18", "round trips (tree flatten/unflatten, jit boundary, tree_map, to_dict/from_dict, scan carry) for every class; vmap and grad as translation validation on 6 pipelines; 'jit == eager' and 'all programs' are outside"),
+    "C18": ("4/C18 + 11.7", "round trips (tree flatten/unflatten, jit boundary, tree_map, to_dict/from_dict, scan carry incl. T=6 (12) filters with concrete matrices) for every class; vmap and grad as translation validation on a fixed set of pipelines (incl. truncated-measure integrals and the heteroscedastic bound at zero weights); exceptions that occur only under tracing are confirmed by a real jit run; numerical 'jit == eager' (XLA) and 'all programs' are outside"),
     "C20": ("4/C20 + 10.8", "normal cdf as a symbolic atom (axioms: range, monotone, symmetry, Phi(0)=1/2, limits); F_k decided by fundamental-theorem derivatives + additivity + two anchors, k<=4 (6 thorough), finite / one-sided / infinite limits, R<=2; evaluation on the three regions; normalised variants; far-tail floating-point accuracy outside"),
     "C19": ("4/C19", "jax.random.normal stubbed by an arbitrary array; R<=2, D<=3, n<=2"),
 }
